@@ -9,7 +9,7 @@ use gimli::{
     Attribute, AttributeValue, DW_AT_byte_size, DW_AT_const_value, DW_AT_count,
     DW_AT_data_member_location, DW_AT_discr, DW_AT_discr_value, DW_AT_encoding, DW_AT_frame_base,
     DW_AT_location, DW_AT_lower_bound, DW_AT_name, DW_AT_type, DW_AT_upper_bound,
-    DebuggingInformationEntry, DwAt, DwTag, Dwarf, Range, Reader, Unit, UnitOffset,
+    DebuggingInformationEntry, DwAt, DwTag, Dwarf, Endianity, Range, Reader, Unit, UnitOffset,
 };
 use std::collections::VecDeque;
 
@@ -126,6 +126,10 @@ impl<'a> Die<'a> {
         };
         let value = die.attr(attr)?;
 
+        if let AttributeValue::Block(block) = value.value() {
+            return Self::wide_int_const(&block, unsigned.is_some());
+        }
+
         let Some(byte_size) = unsigned else {
             return value.sdata_value();
         };
@@ -137,6 +141,27 @@ impl<'a> Die<'a> {
             .udata_value()
             .or_else(|| value.sdata_value().map(|v| v as u64))
             .map(|v| (v & mask) as i64)
+    }
+
+    /// Return an integer constant that is wider than 64 bits (a constant of 128-bit type,
+    /// it is represented by a block of bytes) if its value can be represented by 64 bits.
+    fn wide_int_const(block: &EndianArcSlice, unsigned: bool) -> Option<i64> {
+        let mut bytes = block.to_slice().ok()?.into_owned();
+        if block.endian().is_big_endian() {
+            bytes.reverse();
+        }
+
+        let negative = !unsigned && bytes.last()? & 0x80 != 0;
+        let mut buf = if negative { [0xff; 16] } else { [0; 16] };
+        buf.get_mut(..bytes.len())?.copy_from_slice(&bytes);
+
+        if unsigned {
+            u64::try_from(u128::from_le_bytes(buf))
+                .ok()
+                .map(|v| v as i64)
+        } else {
+            i64::try_from(i128::from_le_bytes(buf)).ok()
+        }
     }
 
     impl_no_virt!(
